@@ -79,6 +79,7 @@ pub fn cfg_toggle(cfg: &FileCfg, which: &str) -> FileCfg {
                 c.type_mappings.push(e);
             }
         }
+        "visualize" => c.visualize_deps = !c.visualize_deps,
         "param_case" => {
             c.default_parameter_case = if c.default_parameter_case.is_none() {
                 Some("snake_case".into())
@@ -98,8 +99,8 @@ pub fn cfg_toggle(cfg: &FileCfg, which: &str) -> FileCfg {
     c
 }
 
-pub const CFG_TOGGLES: [&str; 5] = ["mode", "mapping", "mapping2", "param_case", "field_case"];
-pub const GEN_FILES: [&str; 4] = ["types.ts", "commands.ts", "events.ts", "index.ts"];
+pub const CFG_TOGGLES: [&str; 6] = ["mode", "mapping", "mapping2", "param_case", "field_case", "visualize"];
+pub const GEN_FILES: [&str; 6] = ["types.ts", "commands.ts", "events.ts", "index.ts", "dependency-graph.txt", "dependency-graph.dot"];
 
 pub fn materialize(root: &std::path::Path, project: &Project, st: &HState) {
     sbx::write_sources(root, project, &st.cfg);
